@@ -61,7 +61,7 @@ var RoundingRules = []*cbc.Definition{
 // ApplyRoundingRule applies the given rounding rule to the amount
 // using the currency's base precision as a reference.
 func ApplyRoundingRule(rr cbc.Key, cur currency.Code, amount num.Amount) num.Amount {
-	exp := cur.Def().Subunits
+	exp := cur.Def().Zero().Exp()
 	switch rr {
 	case RoundingRuleCurrency:
 		return amount.Rescale(exp)
